@@ -2141,6 +2141,7 @@ def _register():
 
 
 _register()
+from . import py2lean_mgh  # noqa: E402,F401   mGH engine (key "mgh"): registers itself here (py2lean_mgh.register)
 
 
 if __name__ == "__main__":
